@@ -28,6 +28,7 @@ type Case struct {
 	RPC  string `json:"rpc"`            // short method name, e.g. "Check", "authzen.Evaluation"
 	Cfg  string `json:"cfg,omitempty"`  // server configuration: "" (default) | exp | shadow
 	Muts []Mut  `json:"muts,omitempty"` // kind=mut: 1 or 2 field replacements applied to the baseline request
+	Base string `json:"base,omitempty"` // kind=mut: "" = the RPC's baseline request; "small" = WriteAuthorizationModel with the compact model
 	Scn  string `json:"scn,omitempty"`  // scenario name for model / stored-* / cyclic
 	Arg  int    `json:"arg,omitempty"`  // scenario parameter (depth, width, cycle length)
 	Fld  string `json:"fld,omitempty"`  // stored-tuple: which field of the carrier tuple is replaced
@@ -42,7 +43,7 @@ type Mut struct {
 
 func (c Case) Key() string {
 	var sb strings.Builder
-	sb.WriteString(c.Kind + "|" + c.RPC + "|" + c.Cfg + "|" + c.Scn + "|" + strconv.Itoa(c.Arg) + "|" + c.Fld + "|" + c.Op)
+	sb.WriteString(c.Kind + c.Base + "|" + c.RPC + "|" + c.Cfg + "|" + c.Scn + "|" + strconv.Itoa(c.Arg) + "|" + c.Fld + "|" + c.Op)
 	for _, m := range c.Muts {
 		sb.WriteString("|" + strings.Join(m.Path, ".") + "=" + m.Op)
 	}
@@ -724,6 +725,25 @@ func isPrefix(a, b []string) bool {
 	for i := range a {
 		if a[i] != b[i] {
 			return false
+		}
+	}
+	return true
+}
+
+// heavyOps: alphabet members whose single replacement costs around a second of CPU or more. They are part of every
+// single-replacement sweep but are left out of the double replacements (the bound of the thorough tier).
+var heavyOps = map[string]bool{"keys100k": true, "list100k": true, "sdepth3300": true, "ldepth4900": true, "sdepth10000": true, "ldepth10000": true,
+	"x10k": true, "union-wide10k": true, "generic-wide10k": true}
+
+func doubleOK(op string) bool {
+	if heavyOps[op] {
+		return false
+	}
+	for _, k := range []string{"union", "intersection", "diffbase", "diffsub", "generic"} {
+		if strings.HasPrefix(op, k) {
+			if d, err := strconv.Atoi(op[len(k):]); err == nil && d > 100 {
+				return false
+			}
 		}
 	}
 	return true
